@@ -171,3 +171,98 @@ Theorem C05_signature_shortcut_sound_partial :
     preempt_try vfilter sfilter valid ahead np_gate (fst s) p = None.
 Proof. exact signature_shortcut_sound_same_class. Qed.
 Print Assumptions C05_signature_shortcut_sound_partial.
+
+(** The failed representatives are kept PER QUEUE (reclaim.go / preempt.go:
+    [smallestFailedJobsByQueue[job.Queue]]).  For all job lists, pop orders
+    and oracle answers: when the preempt loop skips a popped job [p] by the
+    shortcut, the representative it was compared with is a job [r] of the
+    queue of [p] with the key of [p], popped earlier in this run of the
+    action, that was not skipped itself and whose own attempt (quota gate +
+    solver) failed in the state in which it was popped; [p] is not easier to
+    schedule than [r].  A job is never skipped on account of a failed job of
+    another queue. *)
+Theorem C05_preempt_skip_is_on_account_of_own_queue :
+  forall vfilter sfilter valid ahead use_sigs pending np_gate st0 before p,
+    let step := preempt_step vfilter sfilter valid ahead use_sigs pending np_gate in
+    skipped use_sigs pending (snd (fold_left step before (st0, []))) p = true ->
+    exists b1 r b2, before = b1 ++ r :: b2
+      /\ pj_queue r = pj_queue p /\ pj_sig r = pj_sig p
+      /\ (let s1 := fold_left step b1 (st0, []) in
+          skipped use_sigs pending (snd s1) r = false
+          /\ preempt_try vfilter sfilter valid ahead np_gate (fst s1) r = None)
+      /\ job_easier (pending p) (pending r) = false.
+Proof. exact preempt_skip_own_queue. Qed.
+Print Assumptions C05_preempt_skip_is_on_account_of_own_queue.
+
+(** the same for the reclaim loop (a job refused by CanReclaimResources is
+    never a representative) *)
+Theorem C05_reclaim_skip_is_on_account_of_own_queue :
+  forall vfilter sfilter valid ahead use_sigs pending can_reclaim st0 before p,
+    let step := reclaim_step vfilter sfilter valid ahead use_sigs pending can_reclaim in
+    skipped use_sigs pending (snd (fold_left step before (st0, []))) p = true ->
+    exists b1 r b2, before = b1 ++ r :: b2
+      /\ pj_queue r = pj_queue p /\ pj_sig r = pj_sig p
+      /\ (let s1 := fold_left step b1 (st0, []) in
+          can_reclaim (fst s1) r = true /\ skipped use_sigs pending (snd s1) r = false
+          /\ reclaim_try vfilter sfilter valid ahead (fst s1) r = None)
+      /\ job_easier (pending p) (pending r) = false.
+Proof. exact reclaim_skip_own_queue. Qed.
+Print Assumptions C05_reclaim_skip_is_on_account_of_own_queue.
+
+(** Preempt / reclaim progress across queues, with NO hypothesis on the
+    shortcut: when no job of the queue of [p] with the key of [p] was popped
+    before [p] - whatever jobs of other queues were popped, and whether they
+    failed and became representatives of their queues - [p] obtains capacity
+    under the remaining hypotheses of C05_preempt_progress /
+    C05_reclaim_progress, with scheduling signatures on or off. *)
+Theorem C05_preempt_progress_across_queues :
+  forall vfilter sfilter valid ahead use_sigs pending np_gate st0 before p after pre v post,
+    Forall (fun r => pj_queue r <> pj_queue p \/ pj_sig r <> pj_sig p) before ->
+    let s := fold_left (preempt_step vfilter sfilter valid ahead use_sigs pending np_gate) before (st0, []) in
+    np_gate (fst s) p = true ->
+    preempt_victims vfilter (fst s) p = pre ++ v :: post ->
+    scenario_good sfilter valid ahead (fst s) p (pre ++ [v]) v ->
+    exists cm, In cm (vs_log (fst (preempt_action vfilter sfilter valid ahead use_sigs pending np_gate st0
+                                                  (before ++ p :: after))))
+               /\ cm_job cm = pj_id p /\ cm_evicted cm <> [].
+Proof. exact preempt_progress_across_queues. Qed.
+Print Assumptions C05_preempt_progress_across_queues.
+
+Theorem C05_reclaim_progress_across_queues :
+  forall vfilter sfilter valid ahead use_sigs pending can_reclaim st0 before p after pre v post,
+    Forall (fun r => pj_queue r <> pj_queue p \/ pj_sig r <> pj_sig p) before ->
+    let s := fold_left (reclaim_step vfilter sfilter valid ahead use_sigs pending can_reclaim) before (st0, []) in
+    can_reclaim (fst s) p = true ->
+    reclaim_victims vfilter (fst s) p = pre ++ v :: post ->
+    scenario_good sfilter valid ahead (fst s) p (pre ++ [v]) v ->
+    exists cm, In cm (vs_log (fst (reclaim_action vfilter sfilter valid ahead use_sigs pending can_reclaim st0
+                                                  (before ++ p :: after))))
+               /\ cm_job cm = pj_id p /\ cm_evicted cm <> [].
+Proof. exact reclaim_progress_across_queues. Qed.
+Print Assumptions C05_reclaim_progress_across_queues.
+
+(** Non-vacuity with two queues.  Two one-unit nodes; queue 1 runs a job of
+    priority 75, queue 2 one of priority 50; each queue has an identical
+    pending job of priority 75 (same key 7, same pod), signatures on.
+    [q2_blocked] (queue 1) is popped first, has no victim, fails and becomes
+    the representative of queue 1 (the map after it holds exactly that entry);
+    [q2_victim] (queue 2) meets every hypothesis of
+    C05_preempt_progress_across_queues and the action commits
+    evict(job 11) + nomination on node 2 for it.  With ONE representative set
+    for the whole action (the structure of the consolidation action:
+    [preempt_step_shared]) the same input commits nothing: the statement is
+    about the per-queue structure, not about any loop with a shortcut. *)
+Theorem C05_per_queue_nonvacuous :
+  Forall (fun r => pj_queue r <> pj_queue q2_victim \/ pj_sig r <> pj_sig q2_victim) [q2_blocked]
+  /\ preempt_failed_at w_vfilter w_true3 w_true3 w_ahead true w_pending w_np_gate q2_st [] q2_blocked
+  /\ (let s := fold_left (preempt_step w_vfilter w_true3 w_true3 w_ahead true w_pending w_np_gate) [q2_blocked] (q2_st, []) in
+      snd s = [(1%positive, [(7%positive, (1%positive, [w_unit]))])]
+      /\ w_np_gate (fst s) q2_victim = true
+      /\ preempt_victims w_vfilter (fst s) q2_victim = [] ++ mkRJ 11 2 50 true 2 :: []
+      /\ scenario_good w_true3 w_true3 w_ahead (fst s) q2_victim ([] ++ [mkRJ 11 2 50 true 2]) (mkRJ 11 2 50 true 2))
+  /\ vs_log (fst (preempt_action w_vfilter w_true3 w_true3 w_ahead true w_pending w_np_gate q2_st [q2_blocked; q2_victim]))
+     = [mkCommit 2 [11%positive] 2]
+  /\ vs_log (fst (fold_left (preempt_step_shared w_vfilter w_true3 w_true3 w_ahead w_pending w_np_gate)
+                            [q2_blocked; q2_victim] (q2_st, []))) = [].
+Proof. exact q2_nonvacuous. Qed.
+Print Assumptions C05_per_queue_nonvacuous.
